@@ -346,3 +346,40 @@ def obj_ident(v):
     if isinstance(v, float):
         return ['float', repr(v)]
     return [type(v).__name__, v]
+
+
+def python_equal_respell(rng, desc):
+    """A value Python considers equal (and that hashes equally) but that is WRITTEN differently: dict items in
+    another insertion order, ints as equal floats/bools.  Used for the ==/hash laws only (cache keys may differ:
+    insertion order and scalar type are part of how a task is built)."""
+    d = copy.deepcopy(desc)
+    changed = [False]
+
+    def rec(x):
+        for k in ('d', 'fd'):
+            if k in x and len(x[k]) >= 2 and rng.random() < 0.8:
+                items = x[k]
+                rng.shuffle(items)
+                changed[0] = True
+        if 's' in x and isinstance(x['s'], int) and not isinstance(x['s'], bool) and abs(x['s']) < 2 ** 53 \
+                and rng.random() < 0.3:
+            v = x.pop('s')
+            if v in (0, 1) and rng.random() < 0.5:
+                x['s'] = bool(v)
+            else:
+                x['f'] = repr(float(v))
+            changed[0] = True
+            return
+        for k in ('l', 't'):
+            if k in x:
+                for i in x[k]:
+                    rec(i)
+        for k in ('d', 'fd'):
+            if k in x:
+                for _, v in x[k]:
+                    rec(v)
+        if 'task' in x:
+            rec(x['task'][2])
+            rec(x['task'][3])
+    rec(d)
+    return d if changed[0] else None
